@@ -219,7 +219,7 @@ func InjectReplay(in string, t *world.Tracer, every int) (n, badInject, disagree
 		d.MCRes = tr.Res
 		switch s.A {
 		case "exec":
-			c := &world.Call{Fn: s.Fn, Caller: d.W.Addr(s.Caller), Rcpt: d.W.Addr(s.Rcpt), Gas: s.Gas, CT: vmcommon.CallType(s.CT), Value: big.NewInt(0)}
+			c := &world.Call{Fn: s.Fn, Caller: d.W.Addr(s.Caller), Rcpt: d.W.Addr(s.Rcpt), Gas: s.Gas, CT: vmcommon.CallType(s.CT), RAE: s.RAE, Value: big.NewInt(0)}
 			for _, a := range s.Args {
 				c.Args = append(c.Args, unhex(a))
 			}
@@ -246,7 +246,7 @@ func InjectReplay(in string, t *world.Tracer, every int) (n, badInject, disagree
 func (d *Ledger) quietResult(s *MCStep) string {
 	switch s.A {
 	case "exec":
-		c := &world.Call{Fn: s.Fn, Caller: d.W.Addr(s.Caller), Rcpt: d.W.Addr(s.Rcpt), Gas: s.Gas, CT: vmcommon.CallType(s.CT), Value: big.NewInt(0)}
+		c := &world.Call{Fn: s.Fn, Caller: d.W.Addr(s.Caller), Rcpt: d.W.Addr(s.Rcpt), Gas: s.Gas, CT: vmcommon.CallType(s.CT), RAE: s.RAE, Value: big.NewInt(0)}
 		for _, a := range s.Args {
 			c.Args = append(c.Args, unhex(a))
 		}
